@@ -120,6 +120,82 @@ CHECKS["C03"] = dict(
               "corrupted-expectation canaries",
 )
 
+CHECKS["C05"] = dict(
+    category="model_checking",
+    text="SigVerify.tla is a case-analysis specification of signature acceptance: a signed object (SCT over X.509/precert "
+         "entry, STH, signed log list, DigitallySigned blob) validly signed by a key of some type under some hash, presented "
+         "after exactly one mutation (each signed field, other key of the same/another type, declared hash code, declared "
+         "signature code, a catalogue of corrupted signature values incl. malformed DER), with the verdict derived from the "
+         "property text; plus the verifier-constructor table (key policy x opt-in) and the CreateSignature table. TLC "
+         "enumerates the full product, checks the laws of the table on every case and exports every case; each case is "
+         "executed with real keys (object encoded and signed with the Go standard library only, mutation applied to real "
+         "bytes) against tls.VerifySignature, ct.NewSignatureVerifier, VerifySCTSignature/VerifySTHSignature, "
+         "loglist3.NewFromSignedJSON, ctutil.VerifySCT(WithVerifier) (plain, precert, embedded), ctutil.NewLogInfo/"
+         "LogInfo.VerifySCTSignature and tls.CreateSignature under recover(); seeded single-bit flips over whole signed "
+         "objects must all be rejected.",
+    design="4/C05",
+    note="'cryptographically valid' is Go's crypto packages (unforgeability/collision resistance assumed; tokens in the "
+         "spec). One mutation at a time. Named clauses for behaviour the property leaves open: HashSupport (codes 1..6), "
+         "LogListAlgorithms (SHA-256 + scheme of the presented RSA/ECDSA key), StrictDER, CreateKeys. Quick: code-class "
+         "representatives, RSA 1024/2048, P-256/384/521, DSA-1024, Ed25519; thorough: all codes 0..255, + RSA-3072, P-224, "
+         "DSA-2048. ECDSA (r, n-s) twins and structurally invalid in-memory keys (nil curve / nil modulus) are not asserted.",
+    technique="TLA+ decision-table spec + TLC exhaustive enumeration with table laws as invariants; spec->code replay of "
+              "every case with real keys and independent std-crypto encoders/signers; oracle-free seeded bit flips",
+)
+CHECKS["C11"] = dict(
+    category="model_checking",
+    text="X509Parse.tla models the lenient parser as the pipeline StrictDER -> LaxDER -> TrailingCheck -> FieldParse(spki, names, "
+         "extension_1..n) over certificate templates (subsets of 15 extension kinds x 5 name string types x 3 key types x validity "
+         "before/after 2050) and 83 named structure-preserving mutations; TLC checks Coherent (the mixed (object, error) outcomes are "
+         "unreachable, IsFatal(err) <=> obj = nil) on every state and exports per case the set of allowed outcome classes, plus the "
+         "concatenation law of ParseCertificates.  Every case is materialized with crypto/x509 as the conforming encoder and replayed "
+         "into the fork: unmutated => no error and field-for-field equality with crypto/x509 on the same bytes, Raw* fields are the exact "
+         "sub-slices of the input; mutated => outcome class within the allowed set.  Totality, coherence, raw-slice fidelity and "
+         "concatenation are additionally checked, oracle-free, on the repository's testdata and on seeded byte/TLV mutations for all "
+         "twelve entry points (recover and a time limit per call).",
+    design="4/C11",
+    note="crypto/x509 / encoding/asn1 of go1.24 are the trusted reference for well-formed certificates (deliberate difference D1: the "
+         "RFC 6962 precert-signing EKU is a known ExtKeyUsage in the fork); one mutation per case, payloads from fixed pools; 'every byte "
+         "string' is sampled (corpus + seeded mutations), non-termination = no return within 10 s; CRL/CSR/key parsers are covered by "
+         "the oracle-free laws only.",
+    technique="TLA+ case-analysis spec + TLC exhaustive enumeration (CASE export); spec->code replay with a differential oracle "
+              "(standard library) for well-formed inputs; metamorphic / oracle-free laws on corpus and seeded mutations",
+)
+CHECKS["C13"] = dict(
+    category="model_checking",
+    text="Retry.tla (shared back-off state, one action per critical section of PostAndParseWithRetry/backoff, logical time) is "
+         "model-checked exhaustively by TLC for 2 callers sharing one client over all response scripts of bounded length incl. "
+         "'503 for ever' under context ends (13 safety clauses as action properties, PromptCtx as liveness); TLC-simulated behaviours "
+         "with the code's constants are replayed into the real jsonclient/LogClient under testing/synctest virtual time (result, "
+         "shared (multiplier, notBefore) via the verif hook and request windows compared); Call/Post/State/Return traces of "
+         "seeded random concurrent scenarios recorded under -race are validated by TLC against RetryTrace.tla (ms, MaxMult 8, "
+         "128 s, 250 ms); oracle-free monitors of every clause run on each timeline.",
+    design="4/C13",
+    note="zero-latency scripted RoundTripper inside the bubble (no HTTP transport internals, no response latency); virtual clock; "
+         "exhaustive model uses MaxMult 3 / jitter {0,1}, real constants only in simulation, replay and trace validation; no "
+         "'408 for ever' script (zero-time loop); redirected POST is retried like a transport error and Retry-After is only read "
+         "on 429/503 (named clauses); only the IMF-fixdate form of HTTP-date is exercised.",
+    technique="TLA+ spec + TLC exhaustive and liveness checking; spec->code replay of simulated behaviours under virtual time; "
+              "code->spec trace validation of concurrent runs (go1.26 synctest, -race); runtime monitors",
+)
+CHECKS["C15"] = dict(
+    category="model_checking",
+    text="LogConfig.tla states well-formedness of LogConfig / LogConfigSet / LogMultiConfig as one definition per conjunct of the "
+         "property over records of field states, the endpoint set of an instance, and a state machine for the STH an instance serves "
+         "while its backend grows; TLC proves the text-derived Valid equal to the decision structure of config.go on every case, "
+         "checks the instance invariants exhaustively and exports ~120k single configs (all pairs + selected triples of field groups, "
+         "seeded draws from the full product), all 122,728 bounded multi-configs and ~2,600 instance behaviours; the harness "
+         "materializes every case as configpb messages and compares ValidateLogConfig/Configs/MultiConfig directly and through the "
+         "file loaders in text and binary form (panic = violation), builds every accepted config with SetUpInstance on a fake Trillian "
+         "log and replays a behaviour (handler key set, get-sth after every growth / source STH arrival).",
+    design="4/C15",
+    note="Field states stand for value classes (1-4 spellings each); full product (5.6e7) only sampled beyond pairs/triples; instances "
+         "built for the Trillian-gRPC chain-storage backend only; the mirror STH storage honours its contract; a frozen mirror is held "
+         "to the frozen-STH sentence only; nil elements of repeated fields and a nil *LogConfig are out of domain.",
+    technique="TLA+ case-analysis spec + TLC exhaustive enumeration with CASE export; spec->code replay of every case and of a "
+              "transition cover + random walks of the instance state machine; oracle-free monitors for the frozen / mirror clauses",
+)
+
 NOT_YET = {}
 
 def main():
